@@ -6,18 +6,25 @@ class C18(Prop):
     id = "C18"
     thorough_rounds = 2   # thorough tier: this many independently seeded rounds of the random generators (duplicates dropped)
     modules = ["H3.Props.C18"]
-    engines = ["dgram"]
+    engines = ["dgram", "wt"]
     design_ref = "DESIGN.md section 7, C18"
     level_text = ("Lean theorems over a model of Datagram::{new,encode,decode} and EncodedDatagram's Buf impl: wire bytes = "
                   "varint(S/4) ++ P for every S < 2^62 divisible by 4 and every payload; the Buf view (remaining/chunk/advance) "
                   "yields exactly those bytes under every consumption pattern (induction over the call list); decode∘encode = id; "
-                  "decode is total: H3_DATAGRAM_ERROR iff varint truncated or 4q > 2^62-1, no u64 wrap")
+                  "decode is total: H3_DATAGRAM_ERROR iff varint truncated or 4q > 2^62-1, no u64 wrap; the same model and oracle "
+                  "also answer for DatagramSender::send_datagram / DatagramReader::read_datagram of a WebTransport session over the "
+                  "simulated transport (engine wt)")
     level_note = ("trusted: Lean kernel + 3 standard axioms; model tied to the code by differential run (k in 0..2^16 exhaustively, "
                   "form boundaries, payloads 0..1500, consumption patterns, all byte strings of length 0..2 for decode); payload "
-                  "Buf modelled as one contiguous Bytes; h3-quinn's send path (copy_to_bytes of the Buf) covered by the Buf-view theorem")
+                  "Buf modelled as one contiguous Bytes; h3-quinn's send path (copy_to_bytes of the Buf) covered by the Buf-view theorem; "
+                  "engine wt: real h3-webtransport session over SimQuic — datagram_sender().send_datagram for CONNECT ids in every "
+                  "varint form of the quarter id, datagram_reader().read_datagram on well-formed and malformed datagrams, and the "
+                  "connection close with H3_DATAGRAM_ERROR that the next accept of the session reports")
     rule = ("cases: enc for S=4k, k in 0..2^16 exhaustive + form boundaries + random k, payload lengths 0..1500, consumption "
             "patterns all/bytewise/random; dec for all strings of length 0..2, every first byte x truncation, random 0..9 bytes; "
-            "non-trivial = implementation result starts with ok or err (not bad-op/refused/panic)")
+            "non-trivial = implementation result starts with ok or err (not bad-op/refused/panic); wt lines: 1..6 datagram "
+            "operations per session (send 0..1500 bytes; receive for the session, for other ids, truncated quarter id incl. the "
+            "empty datagram, quarter id >= 2^60), non-trivial = the session was accepted")
     trusted = ["bytes::Bytes Buf impl for the payload"]
     assumptions = ["payload Buf is contiguous (Bytes); a multi-chunk payload Buf is forwarded unchanged by chunk/advance"]
 
@@ -59,10 +66,31 @@ class C18(Prop):
         for _ in range(100000 if big else 10000):
             n = rng.randrange(0, 10)
             L.append("dgram dec " + hx([rng.randrange(256) for _ in range(n)]))
+        # the observation point "DatagramSender / DatagramReader over the simulated transport" (engine wt, shared with C19)
+        from props.c19 import PROP as C19P
+        for _ in range(30000 if big else 3000):
+            L.append(C19P.one_case_dg(rng))
         return L
+
+    def project(self, line, impl):
+        if line.startswith("wt "):
+            from props.c19 import PROP as C19P
+            return C19P.project(line, impl)
+        return impl
 
     def klass(self, line, impl):
         w = line.split()
+        if w[0] == "wt":
+            k = []
+            if "conn.dgs=ok" in impl:
+                k.append("send")
+            if "conn.dgr=dg:" in impl:
+                k.append("recv")
+            if "conn.dgr=err:conn:local:H3_DATAGRAM_ERROR" in impl:
+                k.append("recv-error")
+            if "closed=[51]" in impl:
+                k.append("closed")
+            return "wt/" + ("+".join(k) if k else impl.split(" ")[0])
         r = impl.split(" ")[0]
         if w[1] == "dec":
             tag = "empty" if w[2] == "-" else "form%d" % (int(w[2][:2], 16) >> 6)
@@ -70,11 +98,16 @@ class C18(Prop):
         return "enc/" + r
 
     def trivial(self, line, impl):
+        if line.startswith("wt "):
+            return "conn.WT=ok" not in impl
         return not (impl.startswith("ok") or impl.startswith("err"))
 
     def shrink_candidates(self, line):
         w = line.split()
         out = []
+        if w[0] == "wt":
+            from props.c19 import PROP as C19P
+            return C19P.shrink_candidates(line)
         if w[1] == "enc":
             if w[3] != "-" and len(w[3]) > 2:
                 out.append(" ".join(w[:3] + [w[3][:2], w[4]]))
